@@ -8,11 +8,12 @@ extractor read from /repo on this run (character sets, reserved suffixes, and fo
 it is by path component or a raw `strings.HasPrefix`).  Package names are specified as lists of path
 components: `Under p q` means `p` is the root or `comps p` is a prefix of `comps q`.
 
-Shape of the result on a tree where `Matches` and the experimental test of `validateSandbox` use raw
-prefixes and the abbreviated label forms skip name validation (the pinned tree):
+Shape of the result:
   * `Includes` (command line expansion, visibility, exclude, experimental dirs): exact — proved.
-  * `Matches` `...` / sandbox experimental dirs: exact iff the corresponding fact says "by component";
-    otherwise a witness (`//p/...` selects `//pfoo`) and the exact characterisation of what is selected.
+  * `Matches` `...` (sandbox whitelist): exact for every pattern package other than "." — proved for the
+    repaired code (fix of `matches-string-prefix`); "." still matches everything (known finding, witness).
+  * sandbox experimental dirs: exact iff the corresponding fact says "by component"; otherwise a witness and
+    the exact characterisation of what is accepted.
   * round trip: proved for every parse result whose name is validated, that is not the `_ORIGINAL` sentinel
     and whose subrepo has no trailing '/'; each of the three exceptions has a witness.
 -/
@@ -23,7 +24,7 @@ abbrev facts : Facts := generatedFacts
 
 /-- What the proofs need from the regenerated facts. -/
 def CoreOK : Bool :=
-  facts.includesSlash &&
+  facts.includesSlash && facts.matchesSlash &&
   (facts.pkgBad.contains ':' && !facts.pkgBad.contains '/' && !facts.pkgBad.contains '.')
 
 /-- Syntactic facts that pin the parts of the code the model hard-codes (dispatch literals, which
@@ -41,7 +42,7 @@ def ShapeOK : Bool :=
   C20.originalTarget == ["", "_ORIGINAL"] &&
   -- pseudo-targets, Parent, Matches, experimental dirs, sandbox whitelist
   C20.allSubpackagesName == ["..."] && C20.allTargetsName == ["all"] && C20.parentLits == ["#", "_"] &&
-  C20.matchesLits == (if C20.matchesDot then [".", "...", "all"] else ["...", "all"]) && C20.matchesUsesParent &&
+  C20.matchesLits == (if C20.matchesDot then ["", ".", "...", "/", "all"] else ["", "...", "/", "all"]) && C20.matchesUsesParent &&
   C20.isExperimentalUsesIncludes && C20.isExperimentalChecksSubrepo && C20.experimentalLabelName == "..." &&
   C20.sandboxWhitelistMethod == "Matches" &&
   C20.sandboxLits == ["%v is not whitelisted to opt out of the sandbox", "_please"]
@@ -60,7 +61,13 @@ theorem coreOK : CoreOK = true := by
 theorem includesSlash_ok : facts.includesSlash = true := by
   have h := coreOK
   simp only [CoreOK, Bool.and_eq_true] at h
-  exact h.1
+  exact h.1.1
+
+/-- `Matches` tests `//p/...` by path component (since the fix of `matches-string-prefix`). -/
+theorem matchesSlash_ok : facts.matchesSlash = true := by
+  have h := coreOK
+  simp only [CoreOK, Bool.and_eq_true] at h
+  exact h.1.2
 
 theorem factsWF : FactsWF facts := by
   have h := coreOK
@@ -119,20 +126,6 @@ theorem C20_experimental_exact (dirs : List Str) (l : Label) :
 
 /-! ## Matches: the sandbox opt-out whitelist -/
 
-/-- The root cause class of the known `Matches` defect: `q` continues `p` inside a path component. -/
-def SiblingPrefix (p q : Str) : Prop := p ≠ [] ∧ ∃ x r, x ≠ '/' ∧ q = p ++ x :: r
-
-theorem prefix_cases {p q : Str} (h : p <+: q) : Under p q ∨ SiblingPrefix p q := by
-  obtain ⟨t, rfl⟩ := h
-  by_cases hp : p = []
-  · left; exact Or.inl hp
-  · cases t with
-    | nil => left; simpa using under_refl p
-    | cons x r =>
-      by_cases hx : x = '/'
-      · left; rw [under_iff]; right; right; subst hx; exact ⟨r, by simp⟩
-      · right; exact ⟨hp, x, r, hx, rfl⟩
-
 /-- `Matches` never misses: everything under `p` is matched by `//p/...`, whichever prefix test is used. -/
 theorem C20_matches_subtree_complete (p q n s s' : Str) (h : Under p q) :
     matchesF facts ⟨p, dots, s⟩ ⟨q, n, s'⟩ = true := by
@@ -151,43 +144,49 @@ theorem C20_matches_subtree_raw (hs : facts.matchesSlash = false) (p q n s s' : 
     matchesF facts ⟨p, dots, s⟩ ⟨q, n, s'⟩ = true ↔ (facts.matchesDot = true ∧ p = ['.']) ∨ p <+: q :=
   matches_dots_raw facts hs p q n s s'
 
-/-- Partial exactness on the pinned tree: outside the two known classes (pattern package ".", sibling with a
-    shared string prefix) `//p/...` matches exactly the packages under `p`. -/
-theorem C20_matches_subtree_partial (p q n s s' : Str) (h1 : p ≠ ['.']) (h2 : ¬ SiblingPrefix p q) :
+/-- What `//p/...` matches, exactly (repaired code): the packages under `p`, plus everything when `p` is "."
+    and the "." special case is present (known finding `matches-dot-package-matches-all`). -/
+theorem C20_matches_subtree_characterisation (p q n s s' : Str) :
+    matchesF facts ⟨p, dots, s⟩ ⟨q, n, s'⟩ = true ↔ (facts.matchesDot = true ∧ p = ['.']) ∨ Under p q :=
+  matches_dots_slash facts matchesSlash_ok p q n s s'
+
+/-- `//p/...` matches exactly package `p` and the packages under `p/` — never a sibling that merely shares the
+    prefix — for every pattern package other than ".". -/
+theorem C20_matches_subtree_exact (p q n s s' : Str) (h1 : p ≠ ['.']) :
     matchesF facts ⟨p, dots, s⟩ ⟨q, n, s'⟩ = true ↔ Under p q := by
+  rw [C20_matches_subtree_characterisation]
   constructor
-  · intro h
-    cases hm : facts.matchesSlash
-    · rw [matches_dots_raw facts hm] at h
-      rcases h with ⟨_, h⟩ | h
-      · exact absurd h h1
-      · rcases prefix_cases h with h | h
-        · exact h
-        · exact absurd h h2
-    · rw [matches_dots_slash facts hm] at h
-      rcases h with ⟨_, h⟩ | h
-      · exact absurd h h1
-      · exact h
-  · exact C20_matches_subtree_complete p q n s s'
+  · rintro (⟨_, h⟩ | h)
+    · exact absurd h h1
+    · exact h
+  · exact Or.inr
 
-example : ("p/q".toList) ≠ ['.'] ∧ ¬ SiblingPrefix "p/q".toList "p/q/r".toList := by
-  refine ⟨by decide, ?_⟩
-  rintro ⟨_, x, r, hx, e⟩
-  have : "p/q/r".toList = "p/q".toList ++ '/' :: 'r' :: [] := by decide
-  rw [this, List.append_right_inj] at e
-  simp at e; exact hx e.1.symm
+example : matchesF facts ⟨"p".toList, dots, []⟩ ⟨"pfoo".toList, ['x'], []⟩ = false ∧
+    matchesF facts ⟨"p".toList, dots, []⟩ ⟨"p/foo".toList, ['x'], []⟩ = true := by decide
 
-/-- Witness (class `matches-string-prefix`): with the raw prefix test `//p/...` matches `//pfoo:x`. -/
+/-- A sibling package sharing the name as a string prefix is never matched. -/
+theorem C20_matches_never_sibling (p r n s s' : Str) (x : Char) (hp : p ≠ []) (hd : p ≠ ['.']) (hx : x ≠ '/') :
+    matchesF facts ⟨p, dots, s⟩ ⟨p ++ x :: r, n, s'⟩ = false := by
+  rw [Bool.eq_false_iff]; intro h
+  rw [C20_matches_subtree_exact _ _ _ _ _ hd, under_iff] at h
+  rcases h with h | h | h
+  · exact hp h
+  · have := congrArg List.length h; simp at this
+  · rw [List.prefix_append_right_inj] at h
+    simp [List.cons_prefix_cons] at h; exact hx h.symm
+
+/-- Witness of the repaired defect (class `matches-string-prefix`), conditional on the OLD fact value: with the
+    raw prefix test `//p/...` matched `//pfoo:x`. -/
 theorem C20_witness_matches_prefix (hs : facts.matchesSlash = false) :
     ∃ p q : Str, matchesF facts ⟨p, dots, []⟩ ⟨q, ['x'], []⟩ = true ∧ ¬ Under p q := by
   refine ⟨"p".toList, "pfoo".toList, ?_, by decide⟩
   rw [matches_dots_raw facts hs]; right; decide
 
 /-- Witness (class `matches-dot-package-matches-all`): `//./...` matches every package. -/
-theorem C20_witness_matches_dot (hd : facts.matchesDot = true) (hs : facts.matchesSlash = false) :
+theorem C20_witness_matches_dot (hd : facts.matchesDot = true) :
     ∃ q : Str, matchesF facts ⟨['.'], dots, []⟩ ⟨q, ['x'], []⟩ = true ∧ ¬ Under ['.'] q := by
   refine ⟨"foo".toList, ?_, by decide⟩
-  rw [matches_dots_raw facts hs]; left; exact ⟨hd, rfl⟩
+  rw [C20_matches_subtree_characterisation]; left; exact ⟨hd, rfl⟩
 
 /-- `//p:all` matches exactly package `p`. -/
 theorem C20_matches_all_exact (p q n s s' : Str) :
